@@ -41,6 +41,8 @@ def find_terminal_measurements(circuit: cirq.AbstractCircuit) -> list[tuple[int,
 
     open_qubits: set[cirq.Qid] = set(circuit.all_qubits())
     seen_control_keys: set[cirq.MeasurementKey] = set()
+    # Keys measured again later: moving the earlier measurement would reorder the key's records.
+    seen_measurement_keys: set[cirq.MeasurementKey] = set()
     terminal_measurements: set[tuple[int, cirq.Operation]] = set()
     for i in range(len(circuit) - 1, -1, -1):
         moment = circuit[i]
@@ -51,10 +53,12 @@ def find_terminal_measurements(circuit: cirq.AbstractCircuit) -> list[tuple[int,
                 and open_qubits.issuperset(op.qubits)
                 and protocols.is_measurement(op)
                 and not (seen_control_keys & protocols.measurement_key_objs(op))
+                and not (seen_measurement_keys & protocols.measurement_key_objs(op))
             ):
                 terminal_measurements.add((i, op))
         open_qubits -= moment.qubits
         seen_control_keys |= protocols.control_keys(moment)
+        seen_measurement_keys |= protocols.measurement_key_objs(moment)
         if not open_qubits:
             break
     return list(terminal_measurements)
@@ -85,10 +89,13 @@ def synchronize_terminal_measurements(
     """
     if context is None:
         context = transformer_api.TransformerContext()
+    found = set(find_terminal_measurements(circuit))
+    # Keep the circuit's own order, so that measurements sharing a key stay in order.
     terminal_measurements = [
         (i, op)
-        for i, op in find_terminal_measurements(circuit)
-        if set(op.tags).isdisjoint(context.tags_to_ignore)
+        for i, moment in enumerate(circuit)
+        for op in moment
+        if (i, op) in found and set(op.tags).isdisjoint(context.tags_to_ignore)
     ]
     ret = circuit.unfreeze(copy=True)
     if not terminal_measurements:
